@@ -32,7 +32,19 @@ func dispatchTables(fd *ast.FuncDecl) []map[string]string {
 		if !ok || sw.Tag == nil {
 			return true
 		}
-		if id, ok := sw.Tag.(*ast.Ident); !ok || id.Name != "funcName" {
+		if _, ok := sw.Tag.(*ast.Ident); !ok {
+			return true
+		}
+		// a dispatch table: every case label is a string literal
+		allStr := len(sw.Body.List) > 0
+		for _, st := range sw.Body.List {
+			for _, e := range st.(*ast.CaseClause).List {
+				if bl, ok := e.(*ast.BasicLit); !ok || bl.Kind != token.STRING {
+					allStr = false
+				}
+			}
+		}
+		if !allStr {
 			return true
 		}
 		tab := map[string]string{}
@@ -381,14 +393,14 @@ func ruleOPT11(c *Ctx) {
 		if !ok || len(as.Lhs) != 1 || len(as.Rhs) != 1 {
 			return true
 		}
-		lhs := types.ExprString(as.Lhs[0])
-		if !strings.HasPrefix(lhs, "assign.Is") {
+		lse, ok := as.Lhs[0].(*ast.SelectorExpr)
+		if !ok || !strings.HasPrefix(lse.Sel.Name, "Is") || !strings.HasSuffix(lse.Sel.Name, "Assign") {
 			return true
 		}
 		if be, ok := as.Rhs[0].(*ast.BinaryExpr); ok && be.Op == token.NEQ {
 			if call, ok := be.X.(*ast.CallExpr); ok {
 				if se, ok := call.Fun.(*ast.SelectorExpr); ok {
-					flagToken[strings.TrimPrefix(lhs, "assign.")] = se.Sel.Name
+					flagToken[lse.Sel.Name] = se.Sel.Name
 				}
 			}
 		}
@@ -754,9 +766,14 @@ func shapeTests(fn *ssa.Function) string {
 		return ""
 	}
 	var out []string
+	recvName := "e"
+	if fd.Recv != nil && len(fd.Recv.List) == 1 && len(fd.Recv.List[0].Names) == 1 {
+		recvName = fd.Recv.List[0].Names[0].Name
+	}
 	for _, st := range fd.Body.List {
 		if is, ok := st.(*ast.IfStmt); ok {
-			cond := types.ExprString(is.Cond)
+			cond := renameExpr(is.Cond, recvName, "")
+			cond = strings.ReplaceAll(cond, "L.", "e.") // renameExpr names the first identifier L
 			if strings.Contains(cond, "e.Name") || strings.Contains(cond, "e.Variable") || strings.Contains(cond, "e.ArrayMapSelector") {
 				// conjunct order is irrelevant
 				parts := strings.Split(cond, " && ")
